@@ -8,7 +8,8 @@ PROP = dict(
               "C08_files_parse", "C08_final",
               # under injected I/O errors, kills and broken stale markers (Props/C08Faults.lean)
               "C08_fault_shape", "C08_no_loss_under_faults", "C08_no_loss_under_faults_file",
-              "C08_removed_only_after_copied", "C08_injected_error_propagates", "C08_dead_does_nothing",
+              "C08_removed_only_after_copied", "C08_reported_at_most_once_under_faults",
+              "C08_one_collection_under_faults", "C08_injected_error_propagates", "C08_failed_read_propagates", "C08_dead_does_nothing",
               "C08_faultfree_is_base", "C08_faultfree_is_base_bytes"],
     suites=["results"],
     level_text="Machine-checked Lean theorems, by induction over arbitrary operation lists (every interleaving of any "
@@ -19,7 +20,8 @@ PROP = dict(
                "and comparing files byte-wise after every operation. The same for histories with injected I/O "
                "errors (read of a node file, append-open / write of the consolidated file, os.remove), kills of a "
                "collector at every yield point and inside a step, and broken stale markers: no row is ever lost and a "
-               "node file is removed only after its rows are in the consolidated file (at-least-once), by induction "
+               "node file is removed only after its rows are in the consolidated file (at-least-once), no row is ever "
+               "reported twice and at most one collection (alive or dead) is in progress, by induction "
                "over arbitrary such histories; tied by the same suite with the failures injected at the file "
                "operations of the real code and the real exception propagation.",
     level_note="Trusted: Lean kernel (+propext, Classical.choice, Quot.sound), tools/extract.py, the results "
